@@ -6,7 +6,7 @@ from __future__ import annotations
 import collections
 from datetime import datetime as dt, timedelta as td
 
-from mc import logcap
+from mc import logcap, modstate
 from mc.vloop import dispose_loop, install_loop
 
 PROPERTY = "C19"
@@ -49,6 +49,10 @@ class World:
 
     def __init__(self) -> None:
         self.lib = L()
+        # every world starts from the library's import-time module-/class-level state (the search builds thousands of worlds in one
+        # process: state kept outside the instances must not travel from one world to the next - within a world it is judged)
+        modstate.snapshot()
+        modstate.reset()
         self.loop = install_loop()
         self.log: list[int] = []
         self.n = 0
@@ -74,6 +78,13 @@ class World:
 
         self.bystander = self.lib["FaultLog"](Tcs2())
         self.poll_views = False
+
+        class Tcs3:  # a third controller's fault log, which has heard one entry of its own (long ago)
+            id = "01:888888"
+            _gwy = Gwy()
+
+        self.peer = self.lib["FaultLog"](Tcs3())
+        self.peer.handle_msg(self.lib["Message"](self._pkt(" I", self._payload(-1000, 0))))
 
     def close(self) -> None:
         dispose_loop(self.loop)
